@@ -466,31 +466,39 @@ def stamp (p : Params) (v : Ver) : Int → Int → Int → List (Int × List UIn
     let (ms, its) := stamp p v (off + 1) (pos + recSize v m) it.ts rest
     (m :: ms, it :: its)
 
-/-- `log.Publish` with effective times already resolved. -/
-def Log.publish (l : Log) (batch : List (Int × List UInt8 × List UInt8)) : Log × Out Int :=
-  if l.opts.readonly then (l, .err .readonly) else
+/-- The rollover at the start of `log.Publish`: the old head becomes a reader (keeping the
+writer's index snapshot), a new empty head opens at the next offset. -/
+def Log.rollover (l : Log) : Log :=
+  match l.segs.getLast? with
+  | none => l
+  | some h =>
+    if needsRollover l.opts h then
+      let r := openWriter l.opts (emptySeg l.wNextOff) l.wNextTime
+      { l with segs := l.segs.dropLast ++ [h, r.1], wNextOff := r.2.1, wNextTime := r.2.2 }
+    else l
+
+/-- `writerIndex.append`: next offset and next time after appending items. -/
+def lastOffTs (its : List Item) (dOff dTs : Int) : Int × Int :=
+  match its.getLast? with
+  | some it => (it.off + 1, it.ts)
+  | none => (dOff, dTs)
+
+/-- `writer.Publish`: append the batch to the head (records, index file, writer index). -/
+def Log.append (l : Log) (batch : List (Int × List UInt8 × List UInt8)) : Log × Out Int :=
   match l.segs.getLast? with
   | none => (l, .err .panic)
-  | some h =>
-    -- rollover
-    let l1 : Log :=
-      if needsRollover l.opts h then
-        let oldReader := { h with mem := h.mem }   -- snapshot of the writer index, head := false
-        let (nh, nOff, nTime) := openWriter l.opts (emptySeg l.wNextOff) l.wNextTime
-        { l with segs := l.segs.dropLast ++ [oldReader, nh], wNextOff := nOff, wNextTime := nTime }
-      else l
-    match l1.segs.getLast? with
-    | none => (l1, .err .panic)
-    | some h1 =>
-      let (ms, its) := stamp l1.opts.params h1.ver l1.wNextOff (logSize h1.ver h1.recs) l1.wNextTime batch
-      let h2 : Seg := { h1 with
-        recs := h1.recs ++ ms,
-        idxf := h1.idxf.map (fun f => { f with items := f.items ++ its }),
-        mem := h1.mem.map (· ++ its) }
-      let (nOff, nTime) := match its.getLast? with
-        | some it => (it.off + 1, it.ts)
-        | none => (l1.wNextOff, l1.wNextTime)
-      ({ l1 with segs := l1.segs.dropLast ++ [h2], wNextOff := nOff, wNextTime := nTime }, .ok nOff)
+  | some h1 =>
+    let st := stamp l.opts.params h1.ver l.wNextOff (logSize h1.ver h1.recs) l.wNextTime batch
+    let h2 : Seg := { h1 with
+      recs := h1.recs ++ st.1,
+      idxf := h1.idxf.map (fun f => { f with items := f.items ++ st.2 }),
+      mem := h1.mem.map (· ++ st.2) }
+    let nx : Int × Int := lastOffTs st.2 l.wNextOff l.wNextTime
+    ({ l with segs := l.segs.dropLast ++ [h2], wNextOff := nx.1, wNextTime := nx.2 }, .ok nx.1)
+
+/-- `log.Publish` with effective times already resolved. -/
+def Log.publish (l : Log) (batch : List (Int × List UInt8 × List UInt8)) : Log × Out Int :=
+  if l.opts.readonly then (l, .err .readonly) else l.rollover.append batch
 
 /-! ### delete -/
 
